@@ -29,7 +29,7 @@ def generate(rng, tier):
 
 def gen_case(rng):
     regs = Regs()
-    SR = rng.choice([100, 100, 1000.0, 1e4, 25, 2.4e9])
+    SR = rng.choice([100, 100, 1000.0, 1e4, 25, 2.4e9, 256e9, 4e12])
     long = rng.random() < 0.2
     N = 2400 if long else rng.randint(6, 40)
     nch = rng.randint(1, 4)
